@@ -35,6 +35,11 @@ type clientSpec struct {
 	// ("<nonce>.shared.f.c10.test."): the first asker's SERVFAIL is recorded by
 	// the failure cache, everybody else is served from the cached failure.
 	failNonces []string
+	// aliasNonces: nonces of the round's alias names every client may ask
+	// ("<nonce>.shared.c<h>.c10.test."), each client in a spelling of its own:
+	// whoever asks first files the alias and its target in the cache, everybody
+	// else's reply is put together from those cached parts.
+	aliasNonces []string
 }
 
 // sharedGroup is one question asked by several clients at about the same time.
@@ -77,11 +82,11 @@ type weights [nKinds]int
 
 var (
 	wUDP = weights{kNormal: 38, kHit: 24, kShared: 6, kSlow: 6, kDecoded: 4, kLarge: 2, kPanic: 3, kDrop: 4, kBadClass: 2, kQR: 4, kShort: 2, kGarbage: 2, kBadCount: 2, kNotimp: 2, kOversize: 1,
-		kSized: 7, kFail: 2, kFailHit: 9, kNX: 5, kEDE: 3}
+		kSized: 7, kFail: 2, kFailHit: 9, kNX: 5, kEDE: 3, kAlias: 3, kAliasHit: 8}
 	wStream = weights{kNormal: 38, kHit: 24, kShared: 6, kSlow: 5, kDecoded: 4, kLarge: 4, kPanic: 3, kDrop: 4, kBadClass: 2, kQR: 4, kGarbage: 2, kBadCount: 2, kNotimp: 2,
-		kSized: 9, kFail: 2, kFailHit: 9, kNX: 5, kEDE: 3}
+		kSized: 9, kFail: 2, kFailHit: 9, kNX: 5, kEDE: 3, kAlias: 3, kAliasHit: 8}
 	wMsg = weights{kNormal: 48, kHit: 24, kShared: 8, kSlow: 6, kDecoded: 4, kLarge: 2, kPanic: 3, kDrop: 3, kBadClass: 2,
-		kSized: 4, kFail: 1, kFailHit: 4, kNX: 3, kEDE: 3}
+		kSized: 4, kFail: 1, kFailHit: 4, kNX: 3, kEDE: 3, kAlias: 2, kAliasHit: 4}
 )
 
 func (w *weights) pick(rng *rand.Rand) qkind {
@@ -116,6 +121,9 @@ type genCtx struct {
 	// questions already asked by this client that can be re-asked as hits
 	asked   []*query
 	failed  []*query // own failing questions (re-asked as kFailHit)
+	aliases []*query // own alias questions (re-asked as kAliasHit)
+	// wave (kBarrier): the wave index the name carries
+	wave    int
 	usedIDs map[string]map[uint16]bool
 	// sizedN, when > 0, is the RDATA size of the next sized question (else
 	// drawn); plain makes packets without random header bits and EDNS options,
@@ -179,6 +187,10 @@ func (g *genCtx) genQuery(kind qkind) *query {
 		nameKind = "e"
 	case kNX:
 		nameKind = "x" + string(rune('a'+rng.IntN(8)))
+	case kAlias:
+		nameKind = fmt.Sprintf("c%d", 1+rng.IntN(2))
+	case kBarrier:
+		nameKind = fmt.Sprintf("b%d", g.wave)
 	case kSized:
 		n := g.sizedN
 		if n <= 0 {
@@ -210,6 +222,27 @@ func (g *genCtx) genQuery(kind qkind) *query {
 			kind = kFail
 			q.Kind = kFail
 			nameKind = "f"
+		}
+	case kAliasHit:
+		// an alias question asked before — by this client, or one of the round's
+		// shared alias names (whoever asks first files it) — in a spelling that
+		// is, most of the time, freshly drawn
+		switch {
+		case len(g.spec.aliasNonces) > 0 && (len(g.aliases) == 0 || rng.IntN(2) == 0):
+			q.Nonce = g.spec.aliasNonces[rng.IntN(len(g.spec.aliasNonces))]
+			q.Qtype = []uint16{dns.TypeA, dns.TypeTXT}[rng.IntN(2)]
+			q.Name = fmt.Sprintf("%s.shared.c%d.%s", q.Nonce, 1+int(q.Nonce[0])%2, zoneSuffix)
+		case len(g.aliases) > 0:
+			o := g.aliases[rng.IntN(len(g.aliases))]
+			q.Nonce, q.Qtype = o.Nonce, o.Qtype
+			q.Name = strings.ToLower(o.Name)
+		default:
+			kind = kAlias
+			q.Kind = kAlias
+			nameKind = fmt.Sprintf("c%d", 1+rng.IntN(2))
+		}
+		if q.Name != "" && rng.IntN(4) != 0 {
+			q.Name = mixCase(rng, q.Name)
 		}
 	case kHit:
 		if len(g.asked) == 0 {
@@ -260,6 +293,8 @@ func (g *genCtx) genQuery(kind qkind) *query {
 		g.asked = append(g.asked, q)
 	case kFail:
 		g.failed = append(g.failed, q)
+	case kAlias:
+		g.aliases = append(g.aliases, q)
 	}
 	q.KindS = q.Kind.String()
 	return q
